@@ -15,6 +15,6 @@ CONSTANTS
   FixDropBound = TRUE
   FixDeriveGuards = TRUE
   FixLateTrack = TRUE
-  FixDeleteOnAccept = FALSE
+  FixDeleteOnAccept = TRUE
 INVARIANTS NoPanic Listed Bounded TypeOK
 PROPERTIES NewestMono
